@@ -256,16 +256,19 @@ func main() {
 		})
 		// truncations of valid files at every offset + mutations + random bytes
 		var nArb int64
+		guardT := vlib.NewStallGuard(r, len(keep)+1, 30*time.Second, "readimports-does-not-terminate", func(in []byte) any {
+			return tcase{Kind: "readimports-does-not-terminate", InputHex: hex.EncodeToString(in), Input: vlib.Q(in)}
+		})
 		vlib.Parallel(len(keep), W, func(k int) {
 			f := keep[k]
-			w := k % W
-			_ = w
 			step := 1
 			if len(f) > 2000 {
 				step = len(f) / 200 // long files (buffer-boundary comments): a sample of the offsets
 			}
 			for cut := 0; cut <= len(f); cut += step {
+				guardT.Begin(k, f[:cut])
 				checkInput(f[:cut])
+				guardT.End(k)
 				atomic.AddInt64(&nArb, 1)
 			}
 		})
